@@ -14,6 +14,7 @@ import (
 )
 
 type Obligation struct {
+	File      string // query file written by the solver stage
 	Name    string   `json:"name"`
 	Fn      string   `json:"fn"`
 	Kind    string   `json:"kind"`
@@ -67,6 +68,7 @@ type Exec struct {
 	curPkg   *ssa.Package
 	ordinals map[string]int // per function: kind -> counter per instruction
 	instrOrd map[ssa.Instruction]string
+	callCover map[string]bool // function|callee pairs that already have a call-site vacuity query
 	pathCap  bool
 	ghostTy  map[string]*STy
 	abstracted bool
